@@ -324,3 +324,24 @@ def render_plain(toks):
     if line:
         out.append(' '.join(line))
     return '\n'.join(out) + '\n'
+
+
+# ------------------------------------------------------------------------------------------------ enumerated brace shapes
+def brace_shapes(max_levels=3):
+    """Small complete C programs enumerating every nesting of up to `max_levels` compound headers (if / for / while / else-less if),
+    each level braced or not, around an innermost `if (p) x = 1;` or plain statement, followed (or not) by `else`: the shapes on which
+    brace removal / addition can re-bind a dangling else.  Yields (name, source text)."""
+    import itertools
+    heads = {'if': 'if (a > %d)', 'for': 'for (i = 0; i < %d; i++)', 'while': 'while (b-- > %d)'}
+    for n in range(0, max_levels + 1):
+        for kinds in itertools.product(sorted(heads), repeat=n):
+            for braces in itertools.product((0, 1), repeat=n):
+                for inner in ('if', 'stmt', 'ifelse'):
+                    for tail in ('else', 'none'):
+                        body = {'if': 'if (p[0]) x = 1;', 'stmt': 'x = 1;', 'ifelse': 'if (p[0]) x = 1; else x = 3;'}[inner]
+                        for k, br, lvl in reversed(list(zip(kinds, braces, range(n)))):
+                            h = heads[k] % (lvl + 1)
+                            body = '%s { %s }' % (h, body) if br else '%s %s' % (h, body)
+                        src = 'int f(int a, int b, int *p)\n{\n    int x = 0, i = 0;\n    if (a) %s%s\n    return x + i + b;\n}\n' % (
+                            ('{ %s }' % body) if (n and braces[0] and False) else body, ' else x = 2;' if tail == 'else' else '')
+                        yield ('%s|%s|%s|%s' % ('-'.join(kinds) or 'flat', ''.join(map(str, braces)), inner, tail), src)
